@@ -137,9 +137,8 @@ def handle : P String := do
     if op == "dense" then pure (showD rows cols A.toDense) else
     match runOp op t rows cols (fun x r tr => A.applyQ x r tr) (fun x y r al ali tr => A.applyAxpyQ x y r al ali tr) with
     | .ok s =>
-      -- `banded_transposed_generic` is XABORTM("not implemented"); the aliasing assertion on two empty vectors
-      -- (0x0 matrix) fires before it and is a different outcome
-      if s == "ABORT" && (op == "applyT" || op == "axpyT") && !(rows == 0 && cols == 0) then pure "ABORT:not-offered"
+      -- `banded_transposed_generic` is XABORTM("not implemented") (sizes always match here; an empty result returns early)
+      if s == "ABORT" && (op == "applyT" || op == "axpyT") then pure "ABORT:not-offered"
       else pure s
     | .error e => throw e
   | "dense" =>
